@@ -21,7 +21,7 @@ Definition pendZ (ts : tstate) : Z := if is_idle ts then 0%Z else 1%Z.
 (** the atomic read-modify-writes of a run do not wrap the counters around: the hypothesis
     "cumulative requested count below the largest usize" of the properties, stated on the run *)
 Definition label_nowrap (l : label) : Prop :=
-  match l with LAtom _ _ AAdd n old => old + n < W | _ => True end.
+  match l with LAtom _ _ AAdd n old _ => old + n < W | _ => True end.
 Definition nowrap (ls : list label) : Prop := Forall label_nowrap ls.
 
 Lemma call_res_buf e ts ts' o : t_buf ts = t_buf ts' ->
@@ -316,7 +316,7 @@ Proof. intros H1 H2. unfold step. rewrite H1, H2. reflexivity. Qed.
 
 Lemma step_res c t q : t_pc (c_pool c t) = PRes q ->
   step e c t = finish e c t (with_c (c_sh c) (wadd (s_c (c_sh c)) (k_incr e q))) (c_pool c t)
-                      (LAtom t SC AAdd (k_incr e q) (s_c (c_sh c))) q (k_pull e q (s_c (c_sh c))).
+                      (LAtom t SC AAdd (k_incr e q) (s_c (c_sh c)) (o_res q)) q (k_pull e q (s_c (c_sh c))).
 Proof. intros H1. unfold step. rewrite H1. destruct (e_kind e); try reflexivity. discriminate Hk. Qed.
 
 Lemma wadd_nowrap a b : a + b < W -> wadd a b = a + b.
@@ -1340,13 +1340,13 @@ Proof.
      KInv match k_fetch_n e (e_len e) (s_c (c_sh c)) with
        | Ok PREnd =>
            commit c t (with_c (c_sh c) (wadd (s_c (c_sh c)) (N.min (e_len e) (e_len e)))) (set_pc (c_pool c t) PIdle)
-             (LAtom t SC AAdd (N.min (e_len e) (e_len e)) (s_c (c_sh c))) [ERet t RUnit []]
+             (LAtom t SC AAdd (N.min (e_len e) (e_len e)) (s_c (c_sh c)) ord_counter_fetch_and_add) [ERet t RUnit []]
        | Ok (PRGot _ rs _) =>
            commit c t (with_c (c_sh c) (wadd (s_c (c_sh c)) (N.min (e_len e) (e_len e)))) (set_pc (c_pool c t) PIdle)
-             (LAtom t SC AAdd (N.min (e_len e) (e_len e)) (s_c (c_sh c))) [ERet t RUnit (drops_after e 0 rs)]
+             (LAtom t SC AAdd (N.min (e_len e) (e_len e)) (s_c (c_sh c)) ord_counter_fetch_and_add) [ERet t RUnit (drops_after e 0 rs)]
        | Panic k =>
            commit c t (with_c (c_sh c) (wadd (s_c (c_sh c)) (N.min (e_len e) (e_len e)))) (set_pc (c_pool c t) PIdle)
-             (LAtom t SC AAdd (N.min (e_len e) (e_len e)) (s_c (c_sh c))) [ERet t (RPanic k []) []]
+             (LAtom t SC AAdd (N.min (e_len e) (e_len e)) (s_c (c_sh c)) ord_counter_fetch_and_add) [ERet t (RPanic k []) []]
        end).
   { intros Hkk.
     rewrite (k_fetch_n_spec e (e_len e) (s_c (c_sh c)) He Hlen).
@@ -1440,7 +1440,7 @@ Proof.
   { intros ->. destruct (call_res_len_op _ _ _ Hres) as [[-> ->]|[-> ->]]; split; reflexivity. }
   unfold step. rewrite Hpc.
   pose proof not_iter as Hni'.
-  assert (Hgoal : KInv (commit c t (c_sh c) (set_pc (c_pool c t) PIdle) (LAtom t SC ALoad 0 (s_c (c_sh c)))
+  assert (Hgoal : KInv (commit c t (c_sh c) (set_pc (c_pool c t) PIdle) (LAtom t SC ALoad 0 (s_c (c_sh c)) ord_counter_current)
                           [ERet t (len_res hm (Some n)) []])).
   { replace (c_sh c) with (with_c (c_sh c) (s_c (c_sh c))) at 1 by (destruct (c_sh c); reflexivity).
     apply kinv_ret_plain; try assumption.
